@@ -5,6 +5,7 @@
 package main
 
 import (
+	"bytes"
 	"crypto/sha256"
 	"encoding/binary"
 	"encoding/json"
@@ -77,18 +78,19 @@ type Op struct {
 // Obs is what one operation produced — the part consensus (and the property) covers.
 type Obs struct {
 	T       string `json:"t"`
-	Class   int    `json:"class"`             // 0 returned, 2 panicked (outside baseapp's recovery)
-	Code    uint32 `json:"code"`              // DeliverTx code
-	Space   string `json:"space,omitempty"`   // codespace
-	GasW    int64  `json:"gas_wanted"`        //
-	GasU    int64  `json:"gas_used"`          //
-	Data    string `json:"data,omitempty"`    // sha256 of the response data
-	Events  string `json:"events,omitempty"`  // sha256 of the canonical encoding of the events
-	NEvents int    `json:"n_events"`          //
-	Extra   string `json:"extra,omitempty"`   // sha256 of validator updates / consensus param updates (end, init)
-	Hash    string `json:"hash,omitempty"`    // commit: application hash
-	Log     string `json:"log,omitempty"`     // sha256 of the log string (NOT covered by consensus; reported separately)
-	LogText string `json:"logtext,omitempty"` // first 160 bytes of the log of a failed tx (diagnostics)
+	Class   int    `json:"class"`              // 0 returned, 2 panicked (outside baseapp's recovery)
+	Code    uint32 `json:"code"`               // DeliverTx code
+	Space   string `json:"space,omitempty"`    // codespace
+	GasW    int64  `json:"gas_wanted"`         //
+	GasU    int64  `json:"gas_used"`           //
+	Data    string `json:"data,omitempty"`     // sha256 of the response data
+	Events  string `json:"events,omitempty"`   // sha256 of the events exactly as returned
+	EventsC string `json:"events_c,omitempty"` // sha256 of the events with each event's attributes sorted
+	NEvents int    `json:"n_events"`           //
+	Extra   string `json:"extra,omitempty"`    // sha256 of validator updates / consensus param updates (end, init)
+	Hash    string `json:"hash,omitempty"`     // commit: application hash
+	Log     string `json:"log,omitempty"`      // sha256 of the log string (NOT covered by consensus; reported separately)
+	LogText string `json:"logtext,omitempty"`  // first 160 bytes of the log of a failed tx (diagnostics)
 	Panic   string `json:"panic,omitempty"`
 }
 
@@ -100,27 +102,42 @@ func h256(b []byte) string {
 	return hlib.Hex(s[:])
 }
 
-func eventsDigest(evs []abci.Event) (string, int) {
+// eventsDigest: sha256 of the events exactly as returned, and of the events with the attributes of each event
+// sorted by (key, value) — the second is insensitive to the attribute order inside one event only.
+func eventsDigest(evs []abci.Event) (string, string, int) {
 	if len(evs) == 0 {
-		return "", 0
+		return "", "", 0
 	}
-	h := sha256.New()
-	var lb [8]byte
-	w := func(b []byte) {
-		binary.BigEndian.PutUint64(lb[:], uint64(len(b)))
-		h.Write(lb[:])
-		h.Write(b)
-	}
-	for _, e := range evs {
-		w([]byte(e.Type))
-		binary.BigEndian.PutUint64(lb[:], uint64(len(e.Attributes)))
-		h.Write(lb[:])
-		for _, a := range e.Attributes {
-			w(a.Key)
-			w(a.Value)
+	one := func(canon bool) string {
+		h := sha256.New()
+		var lb [8]byte
+		w := func(b []byte) {
+			binary.BigEndian.PutUint64(lb[:], uint64(len(b)))
+			h.Write(lb[:])
+			h.Write(b)
 		}
+		for _, e := range evs {
+			w([]byte(e.Type))
+			binary.BigEndian.PutUint64(lb[:], uint64(len(e.Attributes)))
+			h.Write(lb[:])
+			attrs := e.Attributes
+			if canon {
+				attrs = append([]abci.EventAttribute{}, attrs...)
+				sort.SliceStable(attrs, func(i, j int) bool {
+					if c := bytes.Compare(attrs[i].Key, attrs[j].Key); c != 0 {
+						return c < 0
+					}
+					return bytes.Compare(attrs[i].Value, attrs[j].Value) < 0
+				})
+			}
+			for _, a := range attrs {
+				w(a.Key)
+				w(a.Value)
+			}
+		}
+		return hlib.Hex(h.Sum(nil))
 	}
-	return hlib.Hex(h.Sum(nil)), len(evs)
+	return one(false), one(true), len(evs)
 }
 
 // ---------------------------------------------------------------------------------------------------
@@ -164,13 +181,13 @@ func Exec(a *app.Teleport, op Op, cur *tmproto.Header) (o Obs, evs []abci.Event)
 		*cur = req.Header
 		res := a.BeginBlock(req)
 		evs = res.Events
-		o.Events, o.NEvents = eventsDigest(res.Events)
+		o.Events, o.EventsC, o.NEvents = eventsDigest(res.Events)
 	case "tx":
 		res := a.DeliverTx(abci.RequestDeliverTx{Tx: hlib.UnHex(op.Req)})
 		o.Code, o.Space, o.GasW, o.GasU = res.Code, res.Codespace, res.GasWanted, res.GasUsed
 		o.Data = h256(res.Data)
 		evs = res.Events
-		o.Events, o.NEvents = eventsDigest(res.Events)
+		o.Events, o.EventsC, o.NEvents = eventsDigest(res.Events)
 		o.Log = h256([]byte(res.Log))
 		if res.Code != 0 {
 			o.LogText = res.Log
@@ -183,7 +200,7 @@ func Exec(a *app.Teleport, op Op, cur *tmproto.Header) (o Obs, evs []abci.Event)
 		must(req.Unmarshal(hlib.UnHex(op.Req)))
 		res := a.EndBlock(req)
 		evs = res.Events
-		o.Events, o.NEvents = eventsDigest(res.Events)
+		o.Events, o.EventsC, o.NEvents = eventsDigest(res.Events)
 		x := []byte{}
 		for _, vu := range res.ValidatorUpdates {
 			bz, _ := vu.Marshal()
@@ -204,7 +221,7 @@ func Exec(a *app.Teleport, op Op, cur *tmproto.Header) (o Obs, evs []abci.Event)
 		ctx := a.BaseApp.NewContext(false, *cur)
 		ctx = ctx.WithEventManager(sdk.NewEventManager())
 		execOOB(a, ctx, op)
-		o.Events, o.NEvents = eventsDigest(ctx.EventManager().ABCIEvents())
+		o.Events, o.EventsC, o.NEvents = eventsDigest(ctx.EventManager().ABCIEvents())
 	default:
 		panic("unknown op " + op.T)
 	}
